@@ -130,10 +130,16 @@ class Repo:
         from .rehome import rehome
         from .tables import KNOWN_FUNCS as _KF
         from . import alpha as _alpha
-        if any(not (os.path.isfile(os.path.join(_alpha.REF_DIR, fn)) and open(os.path.join(_alpha.REF_DIR, fn), encoding="utf-8").read() == src)
-               for fn, (_, src, _) in parsed.items()):
-            for k_, v_ in rehome({fn[:-3]: t for fn, (_, _, t) in parsed.items()}, _KF).items():
+        differs = any(not (os.path.isfile(os.path.join(_alpha.REF_DIR, fn)) and open(os.path.join(_alpha.REF_DIR, fn), encoding="utf-8").read() == src)
+                      for fn, (_, src, _) in parsed.items())
+        trees_ = {fn[:-3]: t for fn, (_, _, t) in parsed.items()}
+        if differs:
+            for k_, v_ in rehome(trees_, _KF).items():
                 self.desugared[k_] = self.desugared.get(k_, 0) + v_
+        # renamed functions / parameters are named back (reference tree as dictionary); omitted constant defaults made explicit
+        from .sigalign import sigalign
+        for k_, v_ in sigalign(trees_, _KF, differs).items():
+            self.desugared[k_] = self.desugared.get(k_, 0) + v_
         for fn, (path, src, tree) in parsed.items():
             from .desugar import normalise
             from .inline import inline_module
